@@ -26,7 +26,8 @@ RULE = (
     "{O,b,j,01,00,X} (buffer) and a subset as paths, plus every file above: answer == startswith(magic); (e) block_reader "
     "offsets/sizes contiguous from end of header to end of file and counts summing to the record count, for every file of "
     "(a),(b),(c),(f); (f) files grown by two re-openings for append (same codec argument, none, another codec, another marker) "
-    "parsed by the independent parser: records, unchanged header codec and marker. distinct_nontrivial = distinct files (byte strings) examined."
+    "parsed by the independent parser: records, unchanged header codec and marker; (g) files assembled with write_block from donor "
+    "files of every codec, the donor blocks untouched or iterated first. distinct_nontrivial = distinct files (byte strings) examined."
 )
 ASSUMPTIONS = [
     "independent parser/writer mc/ref/container.py + mc/ref/binary.py; zlib/bz2/lzma of the standard library are the codec reference",
@@ -43,6 +44,7 @@ def units(tier):
     us = [("a", si, c) for si in range(len(cont.top_schemas())) for c in codecs]
     us += [("b", si, c) for si in (2, 8, 13, 14, 16) for c in codecs]
     us += [("f", si, c) for si in (2, 8, 14, 15) for c in codecs]
+    us += [("g", si, c) for si in (2, 8, 14, 15) for c in codecs]
     us += [("c", os.path.basename(f)) for f in sorted(glob.glob(os.path.join(REPO, "tests", "avro-files", "*.avro")))]
     us += [("d", first) for first in range(6)]
     return us
@@ -190,6 +192,51 @@ def part_f(res, fa, si, codec, tier, seen):
                 tiling(res, fa, data, info, len(want), p["hdr_end"], want)
 
 
+def part_g(res, fa, si, codec, tier, seen):
+    """Files assembled by copying whole blocks from a donor file (write_block), with the
+    donor's blocks either untouched or iterated first, re-compressed under this file's codec."""
+    from fastavro._write_py import Writer
+
+    name, raw = cont.top_schemas()[si]
+    lists, node, defs = cont.record_lists(raw)
+    marker = cont.sync_marker()
+    for lname, recs in lists:
+        if not recs:
+            continue
+        exp = cont.expected(node, defs, recs)
+        for donor_codec in cont.CODECS:
+            for iterate in (False, True):
+                info = {"part": "g", "schema": raw, "records": recs, "codec": codec, "donor_codec": donor_codec, "iterated_first": iterate}
+                note_case(info)
+                res.evals += 1
+                try:
+                    dfo = io.BytesIO()
+                    fa.writer(dfo, copy.deepcopy(raw), copy.deepcopy(recs), codec=donor_codec, sync_interval=1, sync_marker=b"d" * 16)
+                    out = io.BytesIO()
+                    w = Writer(out, copy.deepcopy(raw), codec=codec, sync_marker=marker)
+                    w.write(copy.deepcopy(recs[0]))
+                    for blk in fa.block_reader(io.BytesIO(dfo.getvalue())):
+                        if iterate:
+                            list(blk)
+                        w.write_block(blk)
+                    w.flush()
+                except Exception as e:
+                    res.add(Violation("c05.g", f"block-copy-raised:{type(e).__name__}", f"{type(e).__name__}: {e} | {short(info, 400)}", info))
+                    continue
+                data = out.getvalue()
+                seen.add(data)
+                want = exp[:1] + exp
+                try:
+                    p = container.parse(data)
+                    got, _ = container.records(p)
+                except Exception as e:
+                    res.add(Violation("c05.g", f"independent-parse-failed:{type(e).__name__}", f"independent parser rejects the file assembled by write_block: {e} | {short(info, 400)}", info))
+                    continue
+                if len(got) != len(want) or not all(same(a, b) for a, b in zip(got, want)):
+                    res.add(Violation("c05.g", "independent-records-differ", f"independent parser recovers {short(got, 200)} expected {short(want, 200)} | {short(info, 400)}", info))
+                tiling(res, fa, data, info, len(want), p["hdr_end"], want)
+
+
 def block_partitions(n):
     """every composition of n records into blocks, with up to two empty blocks inserted anywhere."""
     comps = []
@@ -330,6 +377,8 @@ def run_unit(unit, tier):
         part_b(res, fa, unit[1], unit[2], tier, seen)
     elif unit[0] == "f":
         part_f(res, fa, unit[1], unit[2], tier, seen)
+    elif unit[0] == "g":
+        part_g(res, fa, unit[1], unit[2], tier, seen)
     elif unit[0] == "c":
         part_c(res, fa, unit[1], seen)
     elif unit[0] == "d":
@@ -351,6 +400,10 @@ def replay(case):
         is_avro_check(res, fa, case["data"], case)
     elif part == "c":
         part_c(res, fa, case["file"], set())
+    elif part == "g":
+        si = [i for i, (n, r) in enumerate(cont.top_schemas()) if r == case["schema"]][0]
+        part_g(res, fa, si, case["codec"], "quick", set())
+        return res.violations
     elif part == "f":
         si = [i for i, (n, r) in enumerate(cont.top_schemas()) if r == case["schema"]][0]
         part_f(res, fa, si, case["codec"], "quick", set())
